@@ -29,6 +29,7 @@ type Obligation struct {
 	Pos       string
 	Variant   string
 	Group     string // reach guards of one function: any member satisfiable suffices
+	HideSpec  []string // lemma `uses -spec.f`
 	Reveal    []string // prelude pseudo-symbols whose `;@ needs` axioms are shipped with this VC (lemma `uses spec.X`)
 	// result
 	Status  string // unsat sat unknown timeout error
